@@ -268,6 +268,20 @@ def validate_json(path, schema_path):
     return ""
 
 
+def crash_in_code_under_test(out):
+    """True if the output shows a Go panic / fatal error whose goroutine trace has a hypersdk frame
+    outside the harness (so a harness bug or an OOM kill is not turned into a verdict)."""
+    idx = max(out.find("\npanic:"), out.find("fatal error:"))
+    if idx < 0:
+        return False
+    if "test timed out" in out or "out of memory" in out or "cannot allocate memory" in out:
+        return False
+    trace = out[idx:idx + 20000]
+    first_goroutine = trace.split("\n\n")[1] if "\n\n" in trace else trace
+    frames = re.findall(r"github\.com/ava-labs/hypersdk/[^\s(]+", first_goroutine)
+    return any("verifharness" not in f for f in frames)
+
+
 PASSED_RE = re.compile(r"OK, passed (\d+) tests")
 
 
@@ -438,6 +452,16 @@ def main():
             violations.append(dst)
             tail = [l for l in out.splitlines() if "VERIF-FAIL" in l][-1:]
             print("\n".join(tail)[:3000])
+        elif not pr.timed_out and crash_in_code_under_test(out):
+            # the process died in a panic / runtime fatal error raised on a goroutine of the code
+            # under test (rapid cannot recover those): a failure of the tree, not of the machinery
+            dst = os.path.join(REPLAYS, pid, "%s-seed%d-%s-crash.json" % (tier, vseed, pr.name))
+            idx = max(out.find("panic:"), out.find("fatal error:"))
+            with open(dst, "w") as f:
+                json.dump({"property": pid, "error": "process crashed: " + out[idx:idx + 6000], "case": None,
+                           "note": "crash outside the test goroutine; no shrunk case (re-run the stage with the same VERIF_SEED)"}, f, indent=1)
+            violations.append(dst)
+            print(out[idx:idx + 1500])
         else:
             infra.append("%s: rc=%s timed_out=%s\n%s" % (pr.name, pr.rc, pr.timed_out, out[-3000:]))
 
